@@ -449,6 +449,18 @@ func (ex *Exec) concretize(t *Term, lo, hi int) int {
 	if hi <= lo {
 		panic(pathAbort{"concretize-empty"})
 	}
+	if hi-lo > 3 {
+		// enumerate the values the solver says are possible (one query per
+		// feasible value) instead of one query per value in the range
+		v := int(int64(ex.concretizeAny(t, "concretize")))
+		if t.W < 64 {
+			v = int(signExt(uint64(v), t.W))
+		}
+		if v < lo || v >= hi {
+			panic(engineErr("concretize: value %d outside [%d,%d)", v, lo, hi))
+		}
+		return v
+	}
 	conds := make([]*Term, hi-lo)
 	for i := range conds {
 		conds[i] = ex.C.Eq(t, ex.C.Const(t.W, uint64(int64(lo+i))))
